@@ -531,7 +531,78 @@ func (c *vfPoolCase) snapOf(pool *TxPool) *vfSnap {
 		ns[a] = fmt.Sprint(n)
 	}
 	s.text = fmt.Sprintf("P=%s Q=%s N=%s S=%d/%d", vfContentText(s.pending), vfContentText(s.queued), strings.Join(ns, ","), s.np, s.nq)
+	c.views(pool, p, q)
 	return s
+}
+
+// views: what the block producer is offered (Pending, GetPendingData, PendingSize) and the
+// per-account / per-hash views (ContentFrom, Has, Get) are the same content as Content()
+func (c *vfPoolCase) views(pool *TxPool, p, q map[common.Address]types.Transactions) {
+	hashes := func(l types.Transactions) string {
+		parts := make([]string, len(l))
+		for i, tx := range l {
+			h := tx.Hash()
+			parts[i] = fmt.Sprintf("%d:%x", tx.Nonce(), h[:3])
+		}
+		return strings.Join(parts, ",")
+	}
+	pend, err := pool.Pending()
+	if err != nil {
+		c.o.Viol("pool-pending-error", err.Error())
+		return
+	}
+	total := 0
+	for addr, l := range p {
+		total += len(l)
+		if hashes(pend[addr]) != hashes(l) {
+			c.o.Viol("pool-pending-differs-from-content", fmt.Sprintf("account %s: Pending()=[%s] Content()=[%s]", addr.Hex()[:10], hashes(pend[addr]), hashes(l)))
+			return
+		}
+	}
+	for addr, l := range pend {
+		if len(l) > 0 && len(p[addr]) == 0 {
+			c.o.Viol("pool-pending-differs-from-content", fmt.Sprintf("account %s: Pending()=[%s] Content() has none", addr.Hex()[:10], hashes(l)))
+			return
+		}
+	}
+	if n := pool.PendingSize(); n != total {
+		c.o.Viol("pool-pending-differs-from-content", fmt.Sprintf("PendingSize()=%d, Content() holds %d pending", n, total))
+	}
+	if d := pool.GetPendingData(); len(d) != total {
+		c.o.Viol("pool-pending-differs-from-content", fmt.Sprintf("GetPendingData() returns %d, Content() holds %d pending", len(d), total))
+	} else {
+		for _, tx := range d {
+			from, _ := types.Sender(pool.signer, tx)
+			found := false
+			for _, x := range p[from] {
+				if x.Hash() == tx.Hash() {
+					found = true
+				}
+			}
+			if !found {
+				c.o.Viol("pool-pending-differs-from-content", fmt.Sprintf("GetPendingData() offers %x which is not pending in Content()", tx.Hash().Bytes()[:4]))
+				break
+			}
+		}
+	}
+	for a := 0; a < c.nAcc; a++ {
+		addr := vfAddrs[a]
+		cp, cq := pool.ContentFrom(addr)
+		if hashes(cp) != hashes(p[addr]) || hashes(cq) != hashes(q[addr]) {
+			c.o.Viol("pool-contentfrom-differs-from-content", fmt.Sprintf("account %d: ContentFrom=[%s]/[%s] Content=[%s]/[%s]", a, hashes(cp), hashes(cq), hashes(p[addr]), hashes(q[addr])))
+			return
+		}
+	}
+	for _, m := range []map[common.Address]types.Transactions{p, q} {
+		for _, l := range m {
+			for _, tx := range l {
+				if !pool.Has(tx.Hash()) || pool.Get(tx.Hash()) == nil || pool.Get(tx.Hash()).Hash() != tx.Hash() {
+					c.o.Viol("pool-listed-tx-not-indexed", fmt.Sprintf("%x is in Content() but Has/Get do not know it", tx.Hash().Bytes()[:4]))
+					return
+				}
+			}
+		}
+	}
 }
 
 func (s *vfSnap) where(t *vfTx) string {
